@@ -65,8 +65,12 @@ def run(ctx):
     # plants and CHP units from the generator: unit commitment parameters, ramp profiles (lists / numpy arrays), time-varying capacity,
     # a CHP declared without heat node
     plants = gen.gen_many_plants(ctx.seed, n // 3, dict(CFG, freqs=['h', '2h'], units=['h'], tzs=[None], T=(4, 8), p_profile=0.5, p_unaligned_end=0.0), 'c11p_')
+    # ... also on daily grids, some of them naming the grid's frequency as their own
+    plants += gen.gen_many_plants(ctx.seed, n // 4, dict(CFG, freqs=['d', 'h'], units=['h', 'd'], tzs=[None], T=(4, 7), p_profile=0.0, p_unaligned_end=0.0), 'c11pd_')
     for i, sp in enumerate(plants):
         a = [x for x in sp['assets'] if x['kind'] in ('Plant', 'CHPAsset')][0]
+        if sp['id'].startswith('c11pd_') and i % 3:
+            a['freq'] = sp['grid']['freq']
         if a['kind'] == 'Plant' and i % 2:
             a['kind'], a['_no_heat'] = 'CHPAsset', True
         sp['opts']['grid2'] = None
@@ -98,6 +102,8 @@ def run(ctx):
                     for key in ('resave_equal', 'grid_equal', 'own_grid_problem_equal', 'problem_equal_0', 'problem_equal_1'):
                         if ph.get(key) is False:
                             bad[key] = ph.get('problem_diff_' + key[-1]) if key.startswith('problem_equal') else False
+                    if ph.get('twin_grid_zone_kept') is not None and ph.get('twin_grid_zone_kept') is not True:
+                        bad['another portfolio of the session (same instants, other zone) loaded with its own zone'] = ph['twin_grid_zone_kept']
                     if 'own_grid_error' in ph:
                         bad['set-up on the portfolio\'s own grid after loading'] = ph['own_grid_error']
                 if bad:
